@@ -572,6 +572,14 @@ class World:
         return "ok"
 
     def mk_visitor(self, rules: dict[str, Any], fault_k: int | None) -> Any:
+        # one visitor OBJECT per rule set for the whole run: users keep their visitors around
+        import json as _json
+
+        key = _json.dumps(rules, sort_keys=True)
+        cache = self.__dict__.setdefault("_visitors", {})
+        if key in cache:
+            self.stats.probes["visitor_object_reused"] += 1
+            return cache[key]
         w = self
         ns: dict[str, Any] = {}
 
@@ -598,7 +606,8 @@ class World:
         for cn, rule in rules.items():
             ns["visit_" + cn] = mk(cn, rule)
         V = type("LRuleVisitor", (ASTTransformVisitor,), ns)
-        return V()
+        cache[key] = V()
+        return cache[key]
 
     def retire_stale(self, nodes: list[Any]) -> None:
         """Nodes replaced inside a library-driven rewrite (replace() keeps the id): the old objects are stale shallow
